@@ -165,7 +165,7 @@ PROPS = {
     "C07": {
         "standins": ["ops-C07"],
         "units": [api_ops.units, seam.units, wire_v3.units_emit, walks.units_propagate("C07", "puresnmp.exc:InvalidResponseId"),
-                  wire_community.units_rx],
+                  wire_community.units_rx, wire_community.units_family_switch],
         "level": "other", "design_ref": "7.7",
         "technique": VC + "every clock read is a fresh symbolic integer; the id placed in the PDU must equal the id "
                      "validated (caller-side obligation at the _send seam); _send itself verified against its contract",
